@@ -476,6 +476,19 @@ def run(doc, log):
                 raise Violation(PROP, "material-curve", f"umat.view() {name} curve differs from the analytic stress by {e:.3e} (stretch {lam[k_]:.4f}: {got[k_]:.6e} vs {ref[k_]:.6e}; {len(lam)} stretches in [{lo}, {hi}])", site=f"view.{name}")
             log.count("material-curve-" + name)
         log.count("material-curve-checked")
+        # a material with state variables: the three load cases evaluated by ONE view start each from
+        # the view's initial state - the same curves as three views with one load case each
+        umh = fem.OgdenRoxburgh(fem.NeoHooke(mu=1.0), r=3.0, m=1.0, beta=0.0) & fem.Volumetric(bulk=5.0)
+        lam_h = np.linspace(1.0, 1.7, 4)
+        try:
+            all3 = umh.view(ux=lam_h, ps=lam_h, bx=lam_h).evaluate()
+            single = [umh.view(ux=lam_h, ps=None, bx=None).evaluate()[0], umh.view(ux=None, ps=lam_h, bx=None).evaluate()[0], umh.view(ux=None, ps=None, bx=lam_h).evaluate()[0]]
+        except ValueError:
+            all3 = single = []
+        for a3, s1 in zip(all3, single):
+            if not np.allclose(np.asarray(a3[1], dtype=float), np.asarray(s1[1], dtype=float), rtol=1e-9, atol=1e-12, equal_nan=True):
+                raise Violation(PROP, "material-curve", f"{a3[2]} curve of a material with state variables depends on the other load cases evaluated by the same view (max diff {float(np.nanmax(np.abs(np.asarray(a3[1]) - np.asarray(s1[1])))):.3e})", site="view.evaluate.history-material")
+        log.count("material-curve-history-view")
     sig = "|".join([w.mesh.cell_type, str(doc["mesh"].get("perturb") is not None), str(doc["mesh"].get("perturb_before_convert", True)), doc["field"]["kind"], doc["material"]["name"], case, str(len(vals0)), "inexact" if eng.fired else "", "twin" if doc["c09"].get("twin") else ""])
     return {
         "signature": sig + "|" + adigest(np.asarray(vals0))[:6],
